@@ -28,11 +28,12 @@ type Bounds struct {
 	HugeOneIn                                        int // one run in so many uses a huge shape (64 Ki .. 1 Mi samples)
 	MarathonOneIn                                    int // one C10 run in so many is a marathon (about 1e5 operations on a tiny shape)
 	LongOneIn                                        int // one C11 run in so many is long (hundreds of cycles per task, many tasks)
+	MediumOneIn                                      int // one run in so many uses a medium shape (128 .. 64 Ki samples, sizes around powers of two)
 }
 
 var tiers = map[string]Bounds{
-	"quick":    {MaxC: 16, MaxK: 64, MaxOps: 300, MaxOut: 6, MaxG: 8, MaxM: 6, MaxSteps: 6000, HugeOneIn: 2500, MarathonOneIn: 12000, LongOneIn: 1500},
-	"thorough": {MaxC: 64, MaxK: 4096, MaxOps: 400, MaxOut: 16, MaxG: 64, MaxM: 10, MaxSteps: 50000, HugeOneIn: 400, MarathonOneIn: 1500, LongOneIn: 300},
+	"quick":    {MaxC: 16, MaxK: 64, MaxOps: 300, MaxOut: 6, MaxG: 8, MaxM: 6, MaxSteps: 6000, HugeOneIn: 2500, MarathonOneIn: 12000, LongOneIn: 1500, MediumOneIn: 160},
+	"thorough": {MaxC: 64, MaxK: 4096, MaxOps: 400, MaxOut: 16, MaxG: 64, MaxM: 10, MaxSteps: 50000, HugeOneIn: 400, MarathonOneIn: 1500, LongOneIn: 300, MediumOneIn: 60},
 }
 
 // runCtx is everything one run needs.
